@@ -193,6 +193,108 @@ Definition run_filtered (t1 t2 : value) : list entry * list path :=
 End Run.
 
 (* ------------------------------------------------------------------ *)
+(* DeepHash-side exclusion of set members (deephash.py _skip_this)      *)
+(* ------------------------------------------------------------------ *)
+(* _create_hashtable hashes member i (iteration order) of a compared set with
+   parent "<set path>[i]"; DeepHash._hash first looks the object up in the shared
+   memo table and only then applies _skip_this to that pseudo-path: a member that
+   is not memoised yet and whose pseudo-path is hit gets no hash and silently
+   leaves the comparison.  [memo] = the members hashed so far (keyed by ==).
+   The memo is modelled per compared pair of sets (t1's members first, then
+   t2's); the table shared by the whole run is not threaded through [diff]. *)
+Fixpoint members_kept (hit : nat -> bool) (memo : list atom) (l : list atom) (i : nat)
+    : list atom * list atom :=
+  match l with
+  | [] => ([], memo)
+  | a :: r =>
+      if mem_atom a memo then let '(k, m) := members_kept hit memo r (S i) in (a :: k, m)
+      else if hit i then members_kept hit memo r (S i)
+      else let '(k, m) := members_kept hit (a :: memo) r (S i) in (a :: k, m)
+  end.
+
+Definition diff_set_h (hatom : atom -> pystr) (skip : path -> bool) (hit : nat -> bool)
+    (xs ys : list atom) (p1 p2 : path) : list entry :=
+  let '(xs', m) := members_kept hit [] xs 0 in
+  let '(ys', _) := members_kept hit m ys 0 in
+  diff_set hatom skip xs' ys' p1 p2.
+
+(* "{}[{}]".format(level.path(), i) tested against exclude_paths / exclude_regex_paths *)
+Definition hit_this (rxh : path -> nat -> bool) (EX : list pystr) (p : path) (i : nat) : bool :=
+  mem_str (render p ++ [cLB] ++ p_of_Z (Z.of_nat i) ++ [cRB]) EX || rxh p i.
+Definition no_hit (_ : path) (_ : nat) : bool := false.
+
+Section DiffH.
+Variable hatom : atom -> pystr.
+Variable udiff : pystr -> pystr -> pystr.
+Variable ops : path -> list value -> list value -> list opcode.
+Variable skip : path -> bool.
+Variable excl : path -> bool.
+Variable kf : path -> atom -> bool.
+Variable hit : path -> nat -> bool.
+Variable c : cfg.
+
+Fixpoint diffh (t1 t2 : value) (p1 p2 : path) {struct t1} : list entry * list path :=
+  if skip p1 then ([], []) else
+  if negb (ty_eqb (type_of t1) (type_of t2))
+  then (report skip KType p1 p2 (Some t1) (Some t2) None, [])
+  else
+  match t1, t2 with
+  | VAtom a, VAtom b => (diff_atom udiff skip a b p1 p2, [])
+  | VDict kvs1, VDict kvs2 =>
+      let k1 := keys_x kf c p1 kvs1 in
+      let k2 := keys_x kf c p1 kvs2 in
+      if dict_shortcut excl c k1 k2 p1 then (report skip KValue p1 p2 (Some t1) (Some t2) None, [])
+      else
+        let added := flat_map (fun k => if mem_atom k k1 then []
+                       else report skip KDictAdd (snoc p1 (PKey k)) (snoc p2 (PKey k)) None (assoc k kvs2) None) k2 in
+        let removed := flat_map (fun k => if mem_atom k k2 then []
+                       else report skip KDictRem (snoc p1 (PKey k)) (snoc p2 (PKey k)) (assoc k kvs1) None None) k1 in
+        let common :=
+          (fix go (l : list (atom * value)) : list entry * list path :=
+             match l with
+             | [] => ([], [])
+             | (k, v1) :: r =>
+                 let rest := go r in
+                 if keep_key c k && negb (kf p1 k) then
+                   match find (py_eq k) k2 with
+                   | Some k' =>
+                       match assoc k' kvs2 with
+                       | Some v2 => app2 (diffh v1 v2 (snoc p1 (PKey k')) (snoc p2 (PKey k'))) rest
+                       | None => rest
+                       end
+                   | None => rest
+                   end
+                 else rest
+             end) kvs1 in
+        (added ++ removed ++ fst common, snd common)
+  | VList xs, VList ys | VTuple xs, VTuple ys =>
+      if negb (zip c) && forallb is_atom xs && forallb is_atom ys
+      then let '(es, rec) := default_leaf_list udiff ops skip xs ys p1 p2 in (es, if rec then [p1] else [])
+      else
+        (fix go (xs ys : list value) (i : nat) {struct xs} : list entry * list path :=
+           match xs, ys with
+           | [], _ => (added_from skip ys i p1 p2, [])
+           | _ :: _, [] => (removed_from skip xs i p1 p2, [])
+           | x :: xs', y :: ys' =>
+               app2 (diffh x y (snoc p1 (PIdx i)) (snoc p2 (PIdx i))) (go xs' ys' (S i))
+           end) xs ys 0
+  | VSet xs, VSet ys | VFrozen xs, VFrozen ys => (diff_set_h hatom skip (hit p1) xs ys p1 p2, [])
+  | _, _ => ([], [])
+  end.
+
+Definition run_diffh (t1 t2 : value) : list entry * list path :=
+  let '(es, rec) := diffh t1 t2 [] [] in (mutual es, rec).
+End DiffH.
+
+(* DeepDiff(t1, t2, exclude_paths=, exclude_regex_paths=, include_paths=) with the DeepHash side of the
+   two exclusion options ([rxh] = the patterns on the pseudo-paths of set members) *)
+Definition run_filtered_h hatom udiff ops (rx : path -> bool) (rxh : path -> nat -> bool)
+    (ex_arg inc_arg : list pystr) (c : cfg) (t1 t2 : value) : list entry * list path :=
+  let EX := add_root_to_paths ex_arg in
+  let INC := add_root_to_paths inc_arg in
+  run_diffh hatom udiff ops (skip_this rx EX INC) (excl_this EX) (skip_this_key INC) (hit_this rxh EX) c t1 t2.
+
+(* ------------------------------------------------------------------ *)
 (* the specification side: key-sequence filters                        *)
 (* ------------------------------------------------------------------ *)
 Fixpoint prefixes (p : path) : list path :=
